@@ -27,6 +27,10 @@ type c08Item struct {
 type c08Suffix struct {
 	Kind string   `json:"kind"` // healthy | crash | error | internal.first | internal.after | timeout | initerr
 	Exts []string `json:"exts"`
+	// Stale: before anything else the suffix's first runtime process makes this Extensions API call (next | exiterror |
+	// initerror) with an identifier that the current generation never issued: the one an extension of the prefix (a0,
+	// else the internal pi1) was given - on the fresh instance an identifier nobody was ever given. Both are unknown.
+	Stale string `json:"stale,omitempty"`
 }
 
 type c08Case struct {
@@ -36,6 +40,8 @@ type c08Case struct {
 }
 
 const c08T = 300
+
+var unknownIDRe = regexp.MustCompile(`Unknown extension ?[0-9a-f]{8}-[0-9a-f]{4}-[0-9a-f]{4}-[0-9a-f]{4}-[0-9a-f]{12}`)
 
 func subsOf(code string) []string {
 	switch code {
@@ -190,6 +196,20 @@ func (c *c08Case) scenario(withPrefix bool) *Scenario {
 	sx := c.Suffix
 	firstStage := true
 	stage := func(exts []string, rt Script) {
+		if firstStage && sx.Stale != "" {
+			var pre []Step
+			for _, who := range []string{"a0", "pi1"} {
+				st := Step{Op: "ext." + sx.Stale, Name: who, IDMode: "stale:" + who, Tag: "stale." + who, ErrType: "Extension.Stale"}
+				if sx.Stale == "next" {
+					st.Async = true // if it were accepted it would park
+				}
+				pre = append(pre, st)
+			}
+			if sx.Stale == "next" {
+				pre = append(pre, Step{Op: "sleep", Ms: 15})
+			}
+			rt = Script{Steps: append(pre, rt.Steps...), OnTerm: rt.OnTerm}
+		}
 		b.newStage(exts, "b", rt, nil)
 		if fresh && firstStage {
 			sc.Driver = append(sc.Driver, Step{Op: "init"})
@@ -296,6 +316,9 @@ func c08Normalise(tr *Trace) (*c08Norm, bool) {
 	ids := map[string]string{}
 	normText := func(s string) string {
 		s = deadlineRe.ReplaceAllString(s, `"deadlineMs":0`)
+		// the refusal of an unknown identifier echoes it; which one was sent (an earlier generation's or one never issued) is
+		// the one thing the two runs differ in by construction
+		s = unknownIDRe.ReplaceAllString(s, `Unknown extension<foreign>`)
 		return uuidRe.ReplaceAllStringFunc(s, func(u string) string {
 			if _, ok := ids[u]; !ok {
 				ids[u] = fmt.Sprintf("<id%d>", len(ids))
@@ -449,6 +472,9 @@ func c08Diff(a, b *c08Norm) string {
 func c08Check(c c08Case) (out kit.Outcome) {
 	out.Sample = c
 	out.Label("suffix:" + c.Suffix.Kind)
+	if c.Suffix.Stale != "" {
+		out.Label("stale-identifier:" + c.Suffix.Stale)
+	}
 	for _, it := range c.Prefix {
 		out.Label("prefix:" + it.Kind)
 	}
@@ -549,7 +575,9 @@ func c08Gen(t *rapid.T) c08Case {
 		c.Prefix = append(c.Prefix, it)
 	}
 	c.Suffix = c08Suffix{Kind: rapid.SampledFrom([]string{"healthy", "healthy", "crash", "error", "internal.first", "internal.after", "timeout"}).Draw(t, "suffix"), Exts: c08GenExts(t, "se")}
+	c.Suffix.Stale = rapid.SampledFrom([]string{"", "", "", "next", "exiterror", "initerror"}).Draw(t, "stale")
 	if rapid.IntRange(0, 7).Draw(t, "lateFamily") == 0 {
+		c.Suffix.Stale = ""
 		c.Late = rapid.SampledFrom([]string{"idle", "init", "invoke", "delay.idle", "delay.invoke"}).Draw(t, "late")
 		c.Suffix.Kind = "healthy"
 		// the parked notification belongs to the runtime of the last prefix generation, which must be alone in it
@@ -572,6 +600,10 @@ func c08Fixed() []c08Case {
 		{Prefix: []c08Item{{Kind: "ok"}}, Suffix: c08Suffix{Kind: "internal.first"}},
 		{Prefix: []c08Item{{Kind: "ok", Exts: []string{"I", "IS"}}}, Suffix: c08Suffix{Kind: "internal.first"}},
 		{Prefix: []c08Item{{Kind: "internal"}, {Kind: "timeout.resp", Exts: []string{"IS"}}}, Suffix: c08Suffix{Kind: "healthy", Exts: []string{"I"}}},
+		// identifiers issued by an earlier generation are unknown to the next one
+		{Prefix: []c08Item{{Kind: "timeout.resp", Exts: []string{"IS"}}}, Suffix: c08Suffix{Kind: "healthy", Exts: []string{"I"}, Stale: "next"}},
+		{Prefix: []c08Item{{Kind: "crash.resp", Exts: []string{"I"}}}, Suffix: c08Suffix{Kind: "crash", Stale: "exiterror"}},
+		{Prefix: []c08Item{{Kind: "internal"}}, Suffix: c08Suffix{Kind: "healthy", Stale: "initerror"}},
 		{Prefix: []c08Item{{Kind: "ok"}, {Kind: "timeout.resp"}}, Suffix: c08Suffix{Kind: "healthy"}, Late: "idle"},
 		{Prefix: []c08Item{{Kind: "timeout.resp"}}, Suffix: c08Suffix{Kind: "healthy"}, Late: "init"},
 		{Prefix: []c08Item{{Kind: "timeout.resp"}}, Suffix: c08Suffix{Kind: "healthy"}, Late: "invoke"},
